@@ -619,7 +619,10 @@ impl rustc_driver::Callbacks for Cb {
         for ldid in tcx.mir_keys(()) {
             let did = ldid.to_def_id();
             let kind = tcx.def_kind(did);
-            if !matches!(kind, DefKind::Fn | DefKind::AssocFn | DefKind::Closure) {
+            // functions, methods, closures - and the initialisers of named constants (a `const X: T = unsafe { T::from_raw_unchecked(..) }`
+            // is code, too; statics are data and are read as literal trees below)
+            let is_const = matches!(kind, DefKind::Const { .. } | DefKind::AssocConst { .. });
+            if !matches!(kind, DefKind::Fn | DefKind::AssocFn | DefKind::Closure) && !is_const {
                 continue;
             }
             if !first {
@@ -651,7 +654,7 @@ impl rustc_driver::Callbacks for Cb {
                 out.push_str("null");
             }
             out.push_str(",\"mir\":");
-            let body = tcx.optimized_mir(did);
+            let body = if is_const { tcx.mir_for_ctfe(did) } else { tcx.optimized_mir(did) };
             body_json(tcx, did, body, &mut out);
             out.push_str(",\"promoted\":[");
             let proms = tcx.promoted_mir(did);
